@@ -51,6 +51,88 @@ async def run_async(rec, cfg, items, thorough):
     return runs
 
 
+def multi_mib():
+    from vlib import refcodec as rc
+    rows_a = [1, 2, 3, 4, 5, 6, 127, 128, 200, 1000, 1001, 16384]
+    rows_b = [1, 2, 3, 200, 201, 202, 300, 301, 400]
+    names = [[1, 3, 6, 1, 4, 1, 9999, 7, 1, i] for i in rows_a] + [[1, 3, 6, 1, 4, 1, 9999, 7, 2, i] for i in rows_b] + [[1, 3, 6, 1, 4, 1, 9999, 8, 1]]
+    return [list(rc.oid_content(n)) for n in names]
+
+
+MULTI_KINDS = ["abandon", "nested", "interleave", "abandon-twice"]
+
+
+def multi_specs(variant, ver, mib):
+    a, b = "1.3.6.1.4.1.9999.7.1", "1.3.6.1.4.1.9999.7.2"
+    if ver == "v1":
+        return [("getnext", a, None, mib, False), ("getnext", b, None, mib, False)]
+    table = [[("getbulk", a, 8, mib, False), ("getbulk", b, 5, mib, False)],
+             [("getbulk", a, 20, mib, True), ("getbulk", b, 3, mib, False)],          # fetch() + getbulk()
+             [("getbulk", a, 6, mib, False), ("getnext", b, None, mib, False)],
+             [("getnext", a, None, mib, False), ("getbulk", b, 4, mib, False)]]
+    return table[variant % len(table)]
+
+
+def run_multi_sync(rec, cfg, kind, variant, two_sessions):
+    """several walks alive in one process (abandoned / nested / interleaved), on one session or on two"""
+    a = rec.n
+    mib = multi_mib()
+    agent = ag.Agent(engine=cfg.engine or None) if cfg.engine else ag.Agent()
+    apis = []
+    for i in range(2 if two_sessions else 1):
+        holder = {}
+        api = apidrv.SyncApi(rec, cfg, lambda req, h=holder: h["r"](req), sid=i + 1, timeout=1.0, max_repetitions=20)
+        holder["r"] = walks.honest_responder(agent, api.cfgref, mib, 8)
+        apis.append(api)
+    walks.multi_walk_sync(apis, multi_specs(variant, cfg.ver, mib), kind)
+    for api in apis:
+        api.close()
+    return a, rec.n
+
+
+async def run_multi_async(rec, cfg, kind, variant, two_sessions):
+    a = rec.n
+    mib = multi_mib()
+    agent = ag.Agent(engine=cfg.engine or None) if cfg.engine else ag.Agent()
+    apis = []
+    for i in range(2 if two_sessions else 1):
+        holder = {}
+        api = await apidrv.AsyncApi.create(rec, cfg, lambda req, h=holder: h["r"](req), sid=i + 1, timeout=1.0, max_repetitions=20)
+        holder["r"] = walks.honest_responder(agent, api.cfgref, mib, 8)
+        apis.append(api)
+    await walks.multi_walk_async(apis, multi_specs(variant, cfg.ver, mib), kind)
+    for api in apis:
+        api.close()
+    return a, rec.n
+
+
+def multi_runs(rec, thorough):
+    std = scripts.std_cfgs()
+    out = []
+    todo = []
+    for ci, cn in enumerate(["v2c", "v3-md5", "v1"]):
+        for ki, kind in enumerate(MULTI_KINDS):
+            for variant in range(4 if cn != "v1" else 1):
+                for two in (False, True):
+                    if std[cn].ver == "v3" and not two:
+                        continue      # a v3 session carries USM state (boots / time) from one walk's replies into the other's requests:
+                                      # its walks cannot be judged as independent trace sessions; one-session histories run on v1 / v2c
+                    if not thorough and cn != "v2c" and (ki + variant + ci + int(two)) % 3:
+                        continue
+                    todo.append((cn, kind, variant, two))
+    async def go(items):
+        res = []
+        for (cn, kind, variant, two) in items:
+            a, b = await run_multi_async(rec, std[cn], kind, variant, two)
+            res.append((a, b, dict(kind="async", ver=std[cn].ver, multi=kind, variant=variant, two=two, cfg=cn)))
+        return res
+    out += asyncio.run(go(todo[1::2]))
+    for (cn, kind, variant, two) in todo[0::2]:
+        a, b = run_multi_sync(rec, std[cn], kind, variant, two)
+        out.append((a, b, dict(kind="sync", ver=std[cn].ver, multi=kind, variant=variant, two=two, cfg=cn)))
+    return out
+
+
 def run_sync(rec, cfg, items, thorough):
     runs = []
     for k, e in items:
@@ -98,6 +180,8 @@ def run(tier):
     runs += asyncio.run(run_async(rec, std["v3-md5-aes"], samp(12, 3), thorough))
     runs += run_sync(rec, std["v3-sha1-des"], samp(16, 4), thorough)
     runs += asyncio.run(run_async(rec, std["v3-noauth"], samp(16, 5), thorough))
+    # several walks alive in one process: abandoned / nested / interleaved, on one session or two (each walk its own trace session)
+    runs += multi_runs(rec, thorough)
     rec.close()
     nwalks = sum(1 for e in rec.events if e["ev"] == "WalkStart")
     print("  %d sessions, %d walks, %d events" % (len(runs), nwalks, rec.n), flush=True)
@@ -106,6 +190,9 @@ def run(tier):
         chk.add_tlc(r, "TraceSession(c05)#%d" % i)
     chk.traces += nwalks
     for a, b, info in runs:
+        if "multi" in info:
+            chk.case(("multi", info["kind"], info["cfg"], info["multi"], info["variant"], info["two"]), n=2)
+            continue
         chk.case((info["kind"], info["ver"], json.dumps(info["entry"]["mib"]), json.dumps(info["entry"]["base"])), nontrivial=len(info["entry"]["expect"]) > 0,
                  n=sum(1 for e in rec.events[a:b] if e["ev"] == "WalkStart"))
     ri = 0
@@ -117,6 +204,12 @@ def run(tier):
         ws = [e for e in rec.events[a:idxf + 1] if e["ev"] == "WalkStart"]
         op = ws[-1]["op"] if ws else "?"
         sig = dict(client=info["kind"], ver=info["ver"], op=op, ev=ev["ev"], got=ev.get("exc") or "ok")
+        if "multi" in info:
+            sig["multi"] = info["multi"]
+            chk.violation(sig, "%s %s, two walks %s (%s, variant %d): %s of walk %s: %s" % (info["kind"], info["cfg"], info["multi"], "two sessions" if info["two"] else "one session",
+                          info["variant"], ev["ev"], ev.get("sid"), ev.get("exc") or json.dumps(ev.get("res"))[:100]),
+                          dict(info=info, events=rec.events[a:idxf + 1][-12:]), confirm=confirm_by_replay(replay, dict(info=info)))
+            continue
         chk.violation(sig, "%s %s %s walk of base %s over MIB of %d entries: %s %s" % (info["kind"], info["ver"], op, bytes(info["entry"]["basetext"]).decode(),
                                                                                   len(info["entry"]["mib"]), ev["ev"], ev.get("exc") or json.dumps(ev.get("res"))[:100]),
                       dict(info=info, events=rec.events[a:idxf + 1][-12:]), confirm=confirm_by_replay(replay, dict(info=info)))
@@ -132,7 +225,12 @@ def replay(path):
     std = scripts.std_cfgs()
     cfgname = {"v1": "v1", "v2c": "v2c"}.get(info["ver"], "v3-md5-aes")
     rec = trace.Recorder("c05-replay")
-    if info["kind"] == "async":
+    if "multi" in info:
+        if info["kind"] == "async":
+            asyncio.run(run_multi_async(rec, std[info["cfg"]], info["multi"], info["variant"], info["two"]))
+        else:
+            run_multi_sync(rec, std[info["cfg"]], info["multi"], info["variant"], info["two"])
+    elif info["kind"] == "async":
         runs = asyncio.run(run_async(rec, std[cfgname], [(0, info["entry"])], True))
     else:
         runs = run_sync(rec, std[cfgname], [(0, info["entry"])], True)
